@@ -128,6 +128,9 @@ EXPECT = [
     ("non_ascii_names_are_not_public",
      'o := {"\u540d\u524d": 1, "\u00e9": 2, a: 3, "\u00fc1": 4, _b: 5}\n[o.keys, o.values, o.keys(private?: true).len, o.items.len].p\no@{|k, v| k}.p\n',
      '[["a"], [3], 5, 1]\n["a"]\n'),
+    ("grandchild_of_an_array_value", "c := [1, 2].bear({x: 10}).bear({y: 20})\n[c.x, c.y, c['x], c['y], c.proto.x, c.ancestors.len, c.which('x) == c.proto].p\n",
+     "[10, 20, 10, 20, 10, 5, true]\n"),
+    ("children_of_zero_and_one", "d1 := 1.bear({q: 5})\nd0 := 0.bear({q: 6})\n[d1.q, d0.q, d1['q], d0['q], d1.proto, d0.proto, d1 + 1].p\n", "[5, 6, 5, 6, 1, 0, 2]\n"),
     ("missing_gets_private_and_kwargs",
      "k := {tag: 4, _missing: {|self, name, x, k: 0| [self.tag, name, x, k]}}\nchild := k.bear({tag: 5})\n"
      "child._foo(1, k: 2).p\nchild._foo.p\nchild.zz(1, k: 2).p\nchild['_foo].p\n{_p: 1}._p.p\n",
